@@ -39,6 +39,7 @@ try:
         if os.path.isdir(f"/verif/.cache/tgt/{k}"):
             sh(f"cp -a /verif/.cache/tgt/{k} {verif}/.cache/tgt/{k}")
     caught = {}
+    record = {}
     for p in props:
         t0 = time.time()
         cmd = (f"unshare -m bash -c 'mount --bind {repo} /repo && mount --bind {verif} /verif && cd /verif && "
@@ -62,6 +63,23 @@ try:
                     print("    (replay unreadable)", e)
         if not viol:
             print("    tail:", r.stdout[-600:])
+        first = None
+        for l in viol[:1]:
+            m = re.search(r"replay=(\S+)", l)
+            if m:
+                try:
+                    d = json.load(open(m.group(1).replace("/verif/", verif + "/")))
+                    first = {k: d[k] for k in d if k in ("what", "dialect", "input", "variant", "observed", "unchecked", "kind", "template", "options")}
+                except Exception:
+                    pass
+        record[p] = {"tier": tier, "caught": bool(viol), "violations": len(viol), "with_failing_input": len(with_input), "first_replay": first,
+                     "verif_commit": sh("git -C /verif rev-parse --short HEAD").stdout.strip()}
+    sd = os.path.dirname(patch)
+    if sd.startswith("/verif/seeded/"):
+        f = os.path.join(sd, "checks.json")
+        old = json.load(open(f)) if os.path.exists(f) else {}
+        old.update(record)
+        json.dump(old, open(f, "w"), indent=1, ensure_ascii=False)
     sys.exit(0 if all(caught.values()) else 1)
 finally:
     if not keep:
